@@ -189,22 +189,22 @@ impl World {
                     v
                 }
                 "send_dgram" => {
-                    let len = op["len"].as_u64().unwrap() as usize;
                     let drop = op["drop"].as_bool().unwrap_or(true);
                     let did = op["did"].as_u64().unwrap_or(0);
                     let max = conn.datagrams().max_size();
                     let space = conn.datagrams().send_buffer_space();
+                    // "rel": length relative to the maximum reported right now (boundary cases)
+                    let len = match op["rel"].as_i64() {
+                        Some(rel) => (max.map_or(0, |x| x as i64) + rel).max(0) as usize,
+                        None => op["len"].as_u64().unwrap() as usize,
+                    };
                     extra["len"] = json!(len);
                     extra["drop"] = json!(drop);
                     extra["did"] = json!(did);
                     extra["max"] = json!(max.map_or(-1, |x| x as i64));
                     extra["space"] = json!(space);
-                    let mut data = Vec::with_capacity(len);
-                    let hdr = [(did >> 8) as u8, did as u8, (len >> 8) as u8, len as u8];
-                    for i in 0..len {
-                        data.push(if i < 4 { hdr[i] } else { ((did + i as u64) % 251) as u8 });
-                    }
-                    match conn.datagrams().send(Bytes::from(data), drop) {
+                    let data = crate::wire::dgram_payload(did, len);
+                    let res = match conn.datagrams().send(Bytes::from(data), drop) {
                         Ok(()) => json!({"k":"Ok"}),
                         Err(quinn_proto::SendDatagramError::UnsupportedByPeer) => {
                             json!({"k":"UnsupportedByPeer"})
@@ -212,24 +212,21 @@ impl World {
                         Err(quinn_proto::SendDatagramError::Disabled) => json!({"k":"Disabled"}),
                         Err(quinn_proto::SendDatagramError::TooLarge) => json!({"k":"TooLarge"}),
                         Err(quinn_proto::SendDatagramError::Blocked(_)) => json!({"k":"Blocked"}),
-                    }
+                    };
+                    extra["max_post"] = json!(conn.datagrams().max_size().map_or(-1, |x| x as i64));
+                    extra["space_post"] = json!(conn.datagrams().send_buffer_space());
+                    res
+                }
+                "dgram_query" => {
+                    // the two read-only queries of the datagram API
+                    json!({"k":"Ok","max":conn.datagrams().max_size().map_or(-1, |x| x as i64),
+                        "space":conn.datagrams().send_buffer_space()})
                 }
                 "recv_dgram" => match conn.datagrams().recv() {
                     None => json!({"k":"None"}),
                     Some(b) => {
                         let len = b.len();
-                        let (did, hlen) = if len >= 4 {
-                            (
-                                ((b[0] as u64) << 8) | b[1] as u64,
-                                ((b[2] as u64) << 8) | b[3] as u64,
-                            )
-                        } else {
-                            (0, len as u64)
-                        };
-                        let intact = hlen as usize == len
-                            && b.iter().enumerate().skip(4).all(|(i, &x)| {
-                                x == ((did + i as u64) % 251) as u8
-                            });
+                        let (did, hlen, intact) = crate::wire::dgram_ident(&b);
                         json!({"k":"Some","len":len,"did":did,"hlen":hlen,"intact":intact})
                     }
                 },
